@@ -1,11 +1,11 @@
 def _g(d, pkg, extra=None):
-    return dict(dir=d, pkgname=pkg, files=["%s/c18_rig_test.go" % (d.split("/")[-1] or "root"), "%s/c18_test.go" % (d.split("/")[-1] or "root")],
+    return dict(dir=d, pkgname=pkg, files=["%s/c18_rig_test.go" % (d.split("/")[-1] or "root"), "%s/c18_test.go" % (d.split("/")[-1] or "root")] + (extra or []),
                 test="TestVerifC18", race=True, n_quick=1, n_thorough=1, shards_quick=1, shards_thorough=1,
                 timeout_quick=600, timeout_thorough=3000, v=True)
 
 SPEC = {
     "go": [
-        _g("", "ipfscluster"),
+        _g("", "ipfscluster", ["root/c18_shutdown_test.go"]),
         _g("pintracker/optracker", "optracker"),
         _g("pintracker/stateless", "stateless"),
         _g("monitor/metrics", "metrics"),
@@ -14,35 +14,51 @@ SPEC = {
         _g("consensus/crdt", "crdt"),
     ],
     "gen": ["Locksets"],
-    "force": ["Gen/Locksets.v", "Proofs/C18_Table.v", "Proofs/C18_Tie.v"],
+    "force": ["Gen/Locksets.v", "Proofs/C18_Table.v", "Proofs/C18_Tie.v", "Proofs/C18_WaitTable.v"],
     "diag": True,
     "shrink": False,
     "rule": "one case = one stress scenario run in a child process of the -race test binary for a fixed duration "
             "(root: alerts arriving while Alerts() is read, from empty / across the reset above maxAlerts; optracker: "
             "track/clean/status/filter/set-error; stateless: Track/Untrack/Status/StatusAll/Recover/RecoverAll, with and "
             "without concurrent Shutdown; metrics: Window Add/Latest/All/Distribution at cap 25 and 2, Store writers and "
-            "all read accessors with RemovePeer, Checker CheckPeers/CheckAll/FailedMetric; disk and numpin: GetMetric while "
+            "all read accessors with RemovePeer, Checker CheckPeers/CheckAll/FailedMetric; root 'shutdown': ~150 scripted "
+            "interleavings of the real Cluster.Shutdown / watchPeers / ready / PeerRemove(self) driven through blocking fakes "
+            "- the watcher's look before, while and after Shutdown holds shutdownLock, at each component call Shutdown makes "
+            "under the lock; peer removed by others, by LeaveOnShutdown, by PeerRemove(self) or not; one or two Shutdown calls; "
+            "ready() giving up, failing or finishing while Shutdown runs - a deadlock is a verdict from the goroutine dump; "
+            "disk and numpin: GetMetric while "
             "Shutdown; crdt: LogPin/LogUnpin/State while Shutdown with batching). non-trivial = more than 100 operations of "
             "at least 2 kinds completed; distinct = distinct scenario inputs; the schedule itself is the Go scheduler's",
     "codes": {2: "spec_okb (C18: a returned slice is torn: empty, duplicated, out-of-order or over-long entries)"},
-    "trusted": ["tools/gen/locksets.go (syntactic lockset walk, ~1900 lines incl. a small declared-type inference; self-tested on "
-                "12 hand-made mutants at every run): real executions conform to the table it emits",
+    "trusted": ["tools/gen/locksets.go (syntactic lockset and wait walk, ~2300 lines incl. a small declared-type inference; self-tested on "
+                "two snippets and 20 hand-made mutants at every run): real executions conform to the tables it emits (accesses, "
+                "nesting, waits, the code units each WaitGroup / done channel covers and what they may acquire or wait for)",
                 "Go race detector (-race), Go runtime deadlock/fatal-error reports, Go scheduler (which interleavings the stress run meets)",
                 "critical sections of a sync.Mutex/RWMutex are atomic events of the object models (justified by the machine's "
                 "mutual-exclusion invariant, Proofs/C18_Conc.v mutex_reach)",
                 "callbacks handed to library calls (ring.Do) run synchronously; code of packages outside the seven analysed ones "
                 "takes none of the tracked locks and does not retain references handed to it"],
-    "level_text": "Theorems (Props/C18.v, 13, all closed): general — lockset_drf (disciplined threads never race, every interleaving of the "
-                  "mutex/rwmutex machine) and acyclic_no_lock_deadlock (strictly ordered acquisition, pending writers included, never "
-                  "deadlocks); on the lock/field table regenerated from the Go source at every run — discipline_holds, table_drf, "
-                  "lock_order_acyclic, no_lock_leaks, accessors_atomic, table_covers_guards; on the object models — alerts_not_torn and "
+    "level_text": "Theorems (Props/C18.v, 20, all closed): general — lockset_drf (disciplined threads never race, every interleaving of the "
+                  "mutex/rwmutex machine), acyclic_no_lock_deadlock (strictly ordered acquisition, pending writers included, never "
+                  "deadlocks) and its generalisation acyclic_wait_for_no_deadlock for the machine with Wait g (a thread blocks until the "
+                  "thread group g has finished): if 'holds L acquiring M' + 'holds L waiting for G' + 'a thread of G acquires L' + "
+                  "'a thread of G waits for G'' can be ranked, no interleaving reaches a state where every unfinished thread is blocked; "
+                  "on the tables regenerated from the Go source at every run — discipline_holds, table_drf, "
+                  "lock_order_acyclic, wait_graph_acyclic, table_no_wait_deadlock, table_covers_waits, no_lock_leaks, accessors_atomic, "
+                  "table_covers_guards; wait_graph_as_pinned_refuted (the pinned Shutdown / watchPeers / ready cycles, with a reachable "
+                  "deadlocked state of the machine); on the object models — alerts_not_torn and "
                   "window_latest_atomic for the variant the table selects, with refutation witnesses for the pinned variants. A -race "
                   "stress run of exactly the call combinations of the statement (7 packages) supports it: race reports, panics, crashes "
                   "and hangs are direct violations, returned slices are checked in Coq",
     "level_note": "partial: the Go memory model (beyond data-race freedom), channel-based blocking and panics outside the listed structures "
                   "are not modelled, the stress run samples them; the translator is syntactic and trusted (self-tested); "
-                  "needs fix-S17a/b/c (three unguarded accesses) — on the pinned tree the check reports them and exits 1",
+                  "the wait model has static groups (every goroutine a Wait collects is registered before the Wait: the sync.WaitGroup "
+                  "contract) and does not model multi-way selects or context cancellation; "
+                  "needs fix-S30 (three fix: commits, S30 S31 S32: Cluster.Shutdown deadlocks with watchPeers / with ready()) — on a tree "
+                  "without them the check reports the cycles of the wait-for graph and the concrete interleavings and exits 1",
     "assumptions": ["real executions conform to Gen/Locksets.v (translator soundness)",
                     "every goroutine releases the locks it holds before it ends (checked syntactically: no_lock_leaks)",
+                    "every goroutine a WaitGroup's Wait collects has been registered (Add) before that Wait starts; goroutines block only on "
+                    "mutexes, WaitGroups and plain receives from struct-field channels (multi-way selects, contexts, timers are not waits)",
                     "objects are published to other goroutines only after their constructor returned"],
 }
